@@ -203,6 +203,9 @@ class DATADumpFile(DATADump):
 
 	# Writes a new message at the end of the capture
 	def append_msg(self, msg):
+		# A previous read may have left the position in the middle
+		self.f.seek(0, 2)
+
 		# Generate raw bytes and write
 		msg_raw = self.dump_msg(msg)
 		self.f.write(msg_raw)
